@@ -10,6 +10,7 @@ def answer (line : String) : String :=
     | "hsm" => hsmLine toks
     | "hsmspec" => hsmSpecLine toks
     | "q" => qLine toks
+    | "ld" => ldLine toks
     | _ => "bad-family"
   | [] => "bad-line"
 
